@@ -1,0 +1,7 @@
+//go:build !verif
+
+package dns
+
+import "github.com/hashicorp/go-retryablehttp"
+
+func verifClientHook(*retryablehttp.Client) {}
